@@ -414,9 +414,35 @@ class Body:
                 out.append('<%s>' % e[0])
         return tuple(out)
 
+    def _literal_iter_elems(self, root, path):
+        """`for x in [a, b]`: the payload of next() on an iterator built from an array literal -> its elements"""
+        if not (root.kind == 'call' and root.callee_name() == 'next' and len(root.args) == 1 and tuple(path[:2]) == ('as:Some', '0')):
+            return None
+        it = strip(root.args[0])
+        while it is not None and it.kind == 'ref' and not it.fields():
+            it = strip(it.args[0])
+        if it is None or it.kind != 'escaped':
+            return None
+        defs = self.local_defs.get(it.args[0], [])
+        if len(defs) != 1:
+            return None
+        d = strip(defs[0])
+        if d.kind != 'call' or d.callee_name() != 'into_iter' or len(d.args) != 1:
+            return None
+        arr = strip(d.args[0])
+        if arr.kind != 'agg' or arr.extra.get('akind') != 'array' or not arr.args:
+            return None
+        return arr.args
+
     def mk_load(self, root, path, ty=None, pt=None, span=None):
         # normalise through refs, loads, aggregates, updates
         keep_pt = False
+        elems = self._literal_iter_elems(root, path) if root is not None and path else None
+        if elems is not None:
+            blk = root.point[0] if root.point else 0
+            sel = self.new('phi', list(elems), ty=ty, point=pt, span=span, extra={'block': blk, 'local': -1, 'preds': [blk] * len(elems), 'anyof': True})
+            rest = tuple(path[2:])
+            return self.mk_load(sel, rest, ty, pt, span) if rest else sel
         while True:
             if not path:
                 return root
@@ -541,6 +567,23 @@ class Body:
                 root, full = root.args[0], root.args[1] + path[1:]
             elif root.kind == 'load':
                 root, full = root.args[0], root.args[1] + path
+            sb0 = strip(base)
+            if sb0.kind == 'phi' and len(path) >= 1 and path[0] == '*' and sb0.args and all(strip(a) is not None and strip(a).kind == 'ref' for a in sb0.args) and len(sb0.args) == len(sb0.extra.get('preds', ())):
+                # a write through a reference chosen among several places (`let link = if c { &mut p.left } else { &mut p.right };
+                # *link = v`): one store per candidate place
+                seen_t = set()
+                for a in sb0.args:
+                    ra = strip(a)
+                    key_t = (strip(ra.args[0]).id, tuple(map(str, ra.args[1])))
+                    if key_t in seen_t:
+                        continue
+                    seen_t.add(key_t)
+                    st = Store(ra.args[0], ra.args[1] + path[1:], v, pt, span)
+                    st.owner = ra.extra.get('last_owner')
+                    st.via_call = 'may'
+                    self.stores.append(st)
+                self.stmt_vals[pt] = v
+                return
             st = Store(root, full, v, pt, span)
             for e in reversed(proj):
                 if isinstance(e, list) and e[0] == 'field':
